@@ -1825,6 +1825,22 @@ class Translator:
                     return pre, r.opt[1]
                 t, x = ctx.fresh("t"), ctx.fresh("x")
                 return pre + [("bind", t, ("mopt", r.code, x, ("ret", x), ("panic",)))], V(t, ety, 0, tmax(ety))
+            if name in ("map_or", "map") and args and args[-1][0] == "closure" and len(args[-1][1]) == 1 and len(args) == (2 if name == "map_or" else 1):
+                ety = rt[1]
+                x = ctx.fresh(args[-1][1][0])
+                e2 = dict(env)
+                e2[args[-1][1][0]] = self.typed(x, ety).with_(var=args[-1][1][0])
+                pb, bv = self.expr(args[-1][2], e2, ctx, exp if name == "map_or" else None)
+                if pb:
+                    raise Untranslatable("closure body may panic")
+                if name == "map":
+                    return pre, V("(match %s with Some %s => Some %s | None => None end)" % (r.code, x, bv.code), ("opt", erase(bv.ty)))
+                pd, d = self.expr(args[0], env, ctx, erase(bv.ty) if not isinstance(erase(bv.ty), tuple) else None)
+                d, bv = self.unify(d, bv) if is_int(d.ty) and is_int(bv.ty) else (d, bv)
+                if pd:
+                    raise Untranslatable("default may panic")
+                ty, lo, hi = self.join([d, bv], exp)
+                return pre, V("(match %s with Some %s => %s | None => %s end)" % (r.code, x, bv.code, d.code), ty, lo, hi)
             if name == "unwrap_or" and len(args) == 1:
                 ety = rt[1]
                 p2, d = self.expr(args[0], env, ctx, ety)
